@@ -13,9 +13,56 @@ struct ByteCell {
 enum RKind : uint8_t { RK_STACK, RK_GLOBAL, RK_HEAP, RK_INPUT, RK_CSTR, RK_ERRNO, RK_FREED };
 
 struct RegionData {
-  std::vector<ByteCell> bytes;          // tracked prefix of the region
-  ByteCell rest;                        // summary of everything beyond `bytes`
+  std::vector<ByteCell> bytes;          // densely tracked prefix of the region
+  std::map<int64_t, ByteCell> sparse;   // individually tracked bytes beyond the dense prefix (constant-offset writes)
+  ByteCell rest;                        // summary of every other byte
+  uint8_t provAll = 0;                  // union of every provenance ever written into the region (monotone)
+  mutable uint64_t hcache = 0; mutable bool hvalid = false;   // cached content hash (invalidated by Region::w())
   std::map<int64_t, std::pair<unsigned, Val>> scalars;   // exact-offset typed cells (offset -> (size, value))
+
+  const ByteCell &get(i128 o) const {
+    if (o >= 0 && o < (i128)bytes.size()) return bytes[(size_t)o];
+    auto it = sparse.find((int64_t)o);
+    return it != sparse.end() ? it->second : rest;
+  }
+  void setStrong(i128 o, const ByteCell &c) {
+    if (o < 0) return;
+    provAll |= c.prov;
+    if (o < (i128)bytes.size()) bytes[(size_t)o] = c; else sparse[(int64_t)o] = c;
+  }
+  void join(i128 o, const ByteCell &c) {
+    if (o < 0) return;
+    provAll |= c.prov;
+    if (o < (i128)bytes.size()) { bytes[(size_t)o].cs |= c.cs; bytes[(size_t)o].prov |= c.prov; return; }
+    auto it = sparse.find((int64_t)o);
+    if (it != sparse.end()) { it->second.cs |= c.cs; it->second.prov |= c.prov; }
+    else { ByteCell n = rest; n.cs |= c.cs; n.prov |= c.prov; sparse[(int64_t)o] = n; }
+  }
+  // weak update of every byte in [lo,hi)
+  void joinRange(i128 lo, i128 hi, const ByteCell &c) {
+    if (lo < 0) lo = 0;
+    provAll |= c.prov;
+    for (i128 o = lo; o < hi && o < (i128)bytes.size(); o++) { bytes[(size_t)o].cs |= c.cs; bytes[(size_t)o].prov |= c.prov; }
+    if (hi > (i128)bytes.size()) {
+      for (auto it = sparse.lower_bound((int64_t)std::max(lo, (i128)bytes.size())); it != sparse.end() && it->first < hi; ++it) { it->second.cs |= c.cs; it->second.prov |= c.prov; }
+      rest.cs |= c.cs; rest.prov |= c.prov;
+    }
+  }
+  // strong update of every byte in [lo,hi) with the same cell
+  void fillRange(i128 lo, i128 hi, const ByteCell &c) {
+    if (lo < 0) lo = 0;
+    provAll |= c.prov;
+    for (i128 o = lo; o < hi && o < (i128)bytes.size(); o++) bytes[(size_t)o] = c;
+    i128 b = std::max(lo, (i128)bytes.size());
+    if (hi > b) {
+      if (hi - b <= 2048) { for (i128 o = b; o < hi; o++) sparse[(int64_t)o] = c; }
+      else {
+        sparse.erase(sparse.lower_bound((int64_t)b), sparse.lower_bound((int64_t)hi));
+        rest.cs |= c.cs; rest.prov |= c.prov;     // over-approximation: untracked bytes in range become rest U c
+      }
+    }
+  }
+  i128 scanLimit() const { i128 l = (i128)bytes.size(); if (!sparse.empty()) l = std::max(l, (i128)sparse.rbegin()->first + 1); return l; }
 };
 
 struct Region {
@@ -31,11 +78,13 @@ struct Region {
   // field map (for struct crypt_data): name, lo, hi, writable
   int fieldmap = -1;
   bool live = true;
+  int alignRoot = -1;                   // base address mod 2^k is roots[alignRoot] (k <= 6)
   int frame = -1;                       // owning frame depth for stack regions
 
   RegionData &w() {
     if (!d) d = std::make_shared<RegionData>();
     else if (d.use_count() > 1) d = std::make_shared<RegionData>(*d);
+    d->hvalid = false;
     return *d;
   }
   const RegionData &rd() const { static RegionData empty; return d ? *d : empty; }
